@@ -18,12 +18,13 @@ Model of the C-CANCEL bookkeeping of an association acting as SCP:
 
 `Association._serve_request` (association.py), around the service class call:
 
+    clear_cancel = not isinstance(msg, N_EVENT_REPORT)   # see "requests served in a thread of their own"
     try:
-        self.dimse.cancel_req = {}        # beginOp
+        if clear_cancel: self.dimse.cancel_req = {}        # beginOp
         self._is_paused = True
         service_class.SCP(msg, context)   # handlers run here and query
         self._is_paused = False
-        self.dimse.cancel_req = {}        # endOp  (skipped if SCP raised: the
+        if clear_cancel: self.dimse.cancel_req = {}        # endOp  (skipped if SCP raised: the
     except ...: self.abort(); return      #         association is aborted instead)
 
 `cancel_req` is a Python dict: keys unique, kept in insertion order, assigning
@@ -106,5 +107,34 @@ def Ev.isRecv : Ev → Bool
 /-- `b` neither empties the store nor consumes a cancel for `id` -/
 def keeps (id : Nat) (b : List Ev) : Prop :=
   ∀ e ∈ b, e.clears = false ∧ e ≠ .query id
+
+/-! ### requests served in a thread of their own
+
+`receive_primitive` starts a thread on `_serve_request` for a valid N-EVENT-REPORT request, so that
+request is served while an operation may be in progress.  Whether its `_serve_request` run empties
+the store is read from the source: the shape of the `try` body (`clear` = unconditional,
+`clear-if` = under the test listed in `guards`) and the class served that way. -/
+
+/-- does `_serve_request` empty the store when it serves a request of class `c` -/
+def clearsFor (shape guards : List String) (c : String) : Bool :=
+  shape.contains "clear" ||
+    (shape.contains "clear-if" && guards.any (fun g => g != "not isinstance(msg, " ++ c ++ ")"))
+
+/-- … for some class that is served in a thread of its own -/
+def sideClears (shape guards side : List String) : Bool := side.any (clearsFor shape guards)
+
+/-- the events a whole `_serve_request` run of such a request contributes -/
+def sideEvents (clears : Bool) : List Ev := if clears then [.beginOp 0, .endOp] else []
+
+/-- driver events: a model event, or a whole side-thread run -/
+inductive DEv
+  | ev (e : Ev)
+  | side
+  deriving Repr
+
+def dtrace (clears : Bool) (s : S) : List DEv → List (S × Option Bool)
+  | [] => []
+  | .ev e :: rest => ((step s e).1, (step s e).2) :: dtrace clears (step s e).1 rest
+  | .side :: rest => (exec s (sideEvents clears), none) :: dtrace clears (exec s (sideEvents clears)) rest
 
 end PynetVerif.Cancel
